@@ -9,12 +9,14 @@ func init() {
 		Rule:      "BFS: successor = fresh sketch + replay of the operation list + one more operation, canonical state = hash of (table words, Additions, SampleSize, BlockMask, per-hash recorded counts, effective additions since the last reset/grow); distinct outcome = (table length, last boundary, estimate vector, recorded vector). Sweep: case = (table size, selector pattern, block, filling) in index order, pattern p handled by shard p mod 16; distinct outcome = (size, block class, filling, estimates, counters touched in the block). Period: one case per table size and mode",
 		Assume:    []string{"single-threaded use of the sketch (it is only touched under the policy mutex)", "64-bit uint", "BFS shards split the depth-3 frontier; a state reachable from two shards' parts is counted by both (states/transitions are upper bounds of the distinct numbers, exploration is complete)"},
 		Quick: []Scenario{
+			{Name: "C17/store-loadcache", Build: plain, Pkg: "internal", Test: "TestVerif_C17Store", Shards: 4, BudgetS: 60},
 			{Name: "C17/period", Build: plain, Pkg: "internal", Test: "TestVerif_C17Period", Params: "lo=4,hi=24,real=18", Shards: 8, BudgetS: 60},
 			{Name: "C17/bfs-16w", Build: plain, Pkg: "internal", Test: "TestVerif_C17BFS", Params: "size=16,depth=6,split=3", Shards: 4, BudgetS: 60},
 			{Name: "C17/bfs-64w", Build: plain, Pkg: "internal", Test: "TestVerif_C17BFS", Params: "size=64,depth=6,split=3", Shards: 6, BudgetS: 60},
 			{Name: "C17/sweep", Build: plain, Pkg: "internal", Test: "TestVerif_C17Sweep", Params: "lo=4,hi=24", Shards: 16, BudgetS: 60},
 		},
 		Thorough: []Scenario{
+			{Name: "C17/store-loadcache", Build: plain, Pkg: "internal", Test: "TestVerif_C17Store", Shards: 16, BudgetS: 600},
 			{Name: "C17/period", Build: plain, Pkg: "internal", Test: "TestVerif_C17Period", Params: "lo=4,hi=24,real=24", Shards: 16, BudgetS: 800},
 			{Name: "C17/bfs-16w", Build: plain, Pkg: "internal", Test: "TestVerif_C17BFS", Params: "size=16,depth=8,split=3", Shards: 16, BudgetS: 800},
 			{Name: "C17/bfs-64w", Build: plain, Pkg: "internal", Test: "TestVerif_C17BFS", Params: "size=64,depth=8,split=3", Shards: 16, BudgetS: 800},
